@@ -34,6 +34,13 @@ func TestSweep(t *testing.T) {
 			}
 		}
 	}
+	// channel counts around 256 and 65536 (a count held in a narrower integer would wrap)
+	for _, C := range []int{255, 256, 257, 65535, 65536, 65537} {
+		for _, tn := range []string{"int8", "float64"} {
+			Oracle.One(t, env, rec, "sweep", &Case{T: tn, C: C, Kr: 3, A: 1, B: 2, N: C + 5, Fix: 1, Vals: []int64{9, 0, 127}})
+			Oracle.One(t, env, rec, "sweep", &Case{T: tn, C: C, Kr: 1, A: 0, B: 0, N: C + 2, Vals: []int64{5}})
+		}
+	}
 	// buffers produced by a growing Append with partial frames (capacity possibly not a whole number of frames)
 	for _, tn := range names {
 		for C := 2; C <= 5; C++ {
